@@ -57,10 +57,51 @@ let do_cache (args : string list) : string =
     Printf.sprintf "%s len=%d last=%s" (String.concat "," rs) (nat_len c.entries) (string_of_n c.last)
   | _ -> failwith "cache args"
 
+(* ---------- C15 bbox ---------- *)
+let parse_bbox (s : string) : bbox =
+  match List.map n_of_string (split_on '/' s) with
+  | [z; x0; y0; x1; y1] -> { level = z; x_min = x0; y_min = y0; x_max = x1; y_max = y1; bmax = level_max z }
+  | _ -> failwith ("bad bbox " ^ s)
+let fmt_bbox (b : bbox) : string =
+  String.concat "/" (List.map string_of_n [b.level; b.x_min; b.y_min; b.x_max; b.y_max])
+let out_fmt (f : 'a -> string) (o : 'a outcome) : string = match o with
+  | Ok a -> "ok:" ^ f a | Err -> "err" | Panic -> "panic" | Overflow -> "overflow"
+let b01 b = if b then "1" else "0"
+let fmt_xy (x, y) = string_of_n x ^ ":" ^ string_of_n y
+
+let do_bbox (op : string) (a : string array) : string =
+  let n i = n_of_string a.(i) in
+  match op with
+  | "bb.new" -> out_fmt fmt_bbox (new0 (n 0) (n 1) (n 2) (n 3) (n 4))
+  | "bb.full" -> out_fmt fmt_bbox (new_full (n 0))
+  | "bb.emptynew" -> out_fmt fmt_bbox (new_empty (n 0))
+  | "bb.isempty" -> b01 (is_empty (parse_bbox a.(0)))
+  | "bb.count" -> let b = parse_bbox a.(0) in
+      Printf.sprintf "%s %s %s" (string_of_n (width b)) (string_of_n (height b)) (string_of_n (count_tiles b))
+  | "bb.contains" -> b01 (contains2 (parse_bbox a.(0)) (n 1) (n 2))
+  | "bb.setempty" -> fmt_bbox (set_empty (parse_bbox a.(0)))
+  | "bb.inccoord" -> fmt_bbox (include_coord (parse_bbox a.(0)) (n 1) (n 2))
+  | "bb.border" -> out_fmt fmt_bbox (add_border bbox_add_border_variant (parse_bbox a.(0)) (n 1) (n 2) (n 3) (n 4))
+  | "bb.include" -> out_fmt fmt_bbox (include_bbox (parse_bbox a.(0)) (parse_bbox a.(1)))
+  | "bb.intersect" -> out_fmt fmt_bbox (intersect_bbox (parse_bbox a.(0)) (parse_bbox a.(1)))
+  | "bb.overlaps" -> out_fmt b01 (overlaps_bbox (parse_bbox a.(0)) (parse_bbox a.(1)))
+  | "bb.shift" -> fmt_bbox (shift_by (parse_bbox a.(0)) (n 1) (n 2))
+  | "bb.subtract" -> fmt_bbox (subtract (parse_bbox a.(0)) (n 1) (n 2))
+  | "bb.scale" -> out_fmt fmt_bbox (scale_down (parse_bbox a.(0)) (n 1))
+  | "bb.coords" -> String.concat "," (List.map fmt_xy (iter_coords (parse_bbox a.(0))))
+  | "bb.grid" -> out_fmt (fun l -> String.concat ";" (List.map fmt_bbox l)) (iter_bbox_grid (parse_bbox a.(0)) (n 1))
+  | "bb.index" | "bb.index3" -> out_fmt string_of_n (get_tile_index bbox_index_variant (parse_bbox a.(0)) (n 1) (n 2))
+  | "bb.coord" | "bb.coord3" -> out_fmt fmt_xy (get_coord_by_index bbox_index_variant (parse_bbox a.(0)) (n 1))
+  | "bb.flip" -> out_fmt fmt_bbox (flip_y (parse_bbox a.(0)))
+  | "bb.swap" -> fmt_bbox (swap_xy (parse_bbox a.(0)))
+  | "co.flip" -> out_fmt fmt_xy (coord_flip_y (n 0) (n 1) (n 2))
+  | _ -> "?unknown-op"
+
 (* ---------- dispatch ---------- *)
 let dispatch (op : string) (args : string list) : string =
   match op with
   | "cache" -> do_cache args
+  | _ when String.length op > 3 && (String.sub op 0 3 = "bb." || String.sub op 0 3 = "co.") -> do_bbox op (Array.of_list args)
   | _ -> "?unknown-op"
 
 let () =
